@@ -69,7 +69,11 @@ func verif14Piece(i int) []byte {
 
 // verif14NewEnv: torrent state class 0 fresh, 1 partially complete (piece 0),
 // 2 complete.
-func verif14NewEnv(class int) *verif14Env {
+func verif14NewEnv(class int) *verif14Env { return verif14NewEnvBits(class, 8) }
+
+// verif14NewEnvBits: advBits is the length of the adversarial peer's handshake
+// bitfield.
+func verif14NewEnvBits(class int, advBits uint) *verif14Env {
 	root := verif.TempDir()
 	cads, err := store.NewCADownloadStore(store.CADownloadStoreConfig{
 		DownloadDir:     filepath.Join(root, "download"),
@@ -100,16 +104,19 @@ func verif14NewEnv(class int) *verif14Env {
 		d.complete()
 	}
 	e.d = d
-	e.p, e.msgs = e.addPeer(0x51)
-	e.p2, e.msgs2 = e.addPeer(0x52)
+	// the adversarial peer announced a bitfield of the wrong size in its
+	// handshake (longer than the torrent, no bit beyond it set: that is
+	// accepted); the second peer a well-formed one
+	e.p, e.msgs = e.addPeer(0x51, advBits)
+	e.p2, e.msgs2 = e.addPeer(0x52, 3)
 	return e
 }
 
-func (e *verif14Env) addPeer(id byte) (*peer, *verif14Messages) {
+func (e *verif14Env) addPeer(id byte, nbits uint) (*peer, *verif14Messages) {
 	var pid core.PeerID
 	pid[0] = id
 	msgs := &verif14Messages{recv: make(chan *conn.Message)}
-	p, err := e.d.addPeer(pid, false, bitset.New(3), msgs)
+	p, err := e.d.addPeer(pid, false, bitset.New(nbits), msgs)
 	verif.Assert("add-peer", err == nil)
 	return p, msgs
 }
@@ -167,6 +174,9 @@ func verif14Adversarial(ty p2p.Message_Type, body bool, idx int32) *conn.Message
 // afterwards: completed pieces still read back their bytes, and the
 // dispatcher still answers a well-formed request of another peer.
 func (e *verif14Env) afterwards() {
+	// the adversarial peer's connection ends (as feed does when its receiver
+	// closes): removing it must not hurt either
+	verif.Assert("remove-peer", e.d.removePeer(e.p) == nil)
 	for i := 0; i < 3; i++ {
 		if !e.have[i] {
 			continue
@@ -223,7 +233,14 @@ func VerifDispatchAnyFields() {
 			state = 2
 		}
 	}
-	e := verif14NewEnv(state)
+	advBits := uint(8)
+	if ty == p2p.Message_COMPLETE {
+		// an oversize bitfield followed by COMPLETE is the open finding F6
+		// (VerifDispatchFindingLongBitfieldComplete): here the peer's
+		// bitfield has the torrent's size
+		advBits = 3
+	}
+	e := verif14NewEnvBits(state, advBits)
 	idx := verif.Int32("index")
 	// every type takes the full int32 range (negative indices were repaired
 	// upstream: e23eae0 for storage, c60f470 for announce-piece)
@@ -241,8 +258,8 @@ func VerifDispatchAnyFields() {
 	e.afterwards()
 }
 
-// VerifDispatchFindingNegativeIndex: like above with a negative index. Fires
-// on the current tree (FINDINGS.md).
+// VerifDispatchFindingNegativeIndex: like above with a negative index. Regression
+// check for FINDINGS.md (fixed upstream by e23eae0 / c60f470).
 func VerifDispatchFindingNegativeIndex() {
 	verif14Options()
 	e := verif14NewEnv(1 + verif.Choice("torrent_state", verif.Bound("finding_states", 1, 2)))
@@ -255,7 +272,7 @@ func VerifDispatchFindingNegativeIndex() {
 }
 
 // VerifDispatchFindingMissingBody: the sub-message named by the type is
-// absent. Fires on the current tree (FINDINGS.md).
+// absent. Regression check for FINDINGS.md F4 (fixed upstream by c60f470).
 func VerifDispatchFindingMissingBody() {
 	verif14Options()
 	e := verif14NewEnv(1 + verif.Choice("torrent_state", verif.Bound("finding_states", 1, 2)))
@@ -264,8 +281,8 @@ func VerifDispatchFindingMissingBody() {
 }
 
 // VerifDispatchFindingOversizedBitfield: a peer whose handshake bitfield is
-// longer than the torrent (bit beyond the last piece set) is added. Fires on
-// the current tree (FINDINGS.md).
+// longer than the torrent (bit beyond the last piece set) is added. Regression
+// check for FINDINGS.md F5 (fixed upstream by c60f470).
 func VerifDispatchFindingOversizedBitfield() {
 	verif14Options()
 	e := verif14NewEnv(0)
@@ -278,5 +295,17 @@ func VerifDispatchFindingOversizedBitfield() {
 	pid[0] = 0x53
 	err := e.d.AddPeer(pid, false, b, &verif14Messages{recv: make(chan *conn.Message)})
 	_ = err // rejected or accepted: either way no panic
+	e.afterwards()
+}
+
+// VerifDispatchFindingLongBitfieldComplete: a peer whose handshake bitfield is
+// longer than the torrent (no bit beyond it set, so addPeer accepts it) sends
+// COMPLETE while the torrent is in progress, then its connection ends. Fires
+// on the current tree (FINDINGS.md F6).
+func VerifDispatchFindingLongBitfieldComplete() {
+	verif14Options()
+	nbits := verif.IntRange("bitfield_bits", 4, 8)
+	e := verif14NewEnvBits(1, uint(nbits))
+	e.d.dispatch(e.p, verif14Adversarial(p2p.Message_COMPLETE, true, 0))
 	e.afterwards()
 }
